@@ -66,6 +66,11 @@ NEEDS = {
  'C11d-unord-endpos-not-refreshed': 'a compressed block longer than the input window, exactly 2 workers, the speculative job parked at the tail before the parser reaches its block',
  'C16d-cli-sti-around-work-only': 'SIGINT/SIGTERM landing between open(O_EXCL) of the output and work(), or at fchown/fchmod/futimens/close/unlink',
  'C21d-sigusr1-inherited-blocked': 'the parent execs lbzip2 with SIGUSR1 blocked, and a read/write failure occurs in a sub-thread',
+ 'C03e-static-len-pack-shared': '>= 2 workers and >= 2 blocks whose prefix-coding phases overlap in time',
+ 'C09e-parse-crc-half-on-stack': 'an input-buffer edge between the two halves of a stored block CRC and a reader that is behind the parser at that moment (slow/fragmented pipe)',
+ 'C12e-static-rand-table': 'a file with >= 2 randomised blocks decoded concurrently by >= 2 workers; visible to ThreadSanitizer only',
+ 'C18e-sti-skipped-on-output-skip': 'several FILE operands, one skipped on the output side (existing output without -f) followed by a processed one',
+ 'C22e-short-s-falls-into-u': 'the short option -s when compressing an input longer than one block that contains runs',
  'C22-env-first-only': 'two of LBZIP2/BZIP2/BZIP set at once, the later one carrying a relevant option',
 }
 
